@@ -98,7 +98,8 @@ pub fn expect(pre: &Snap, op: &OpKind, ovh: usize, vsz: usize) -> Expect {
             if s > max {
                 return same(Some(Ret::TryBig(k, v, s, max)), "C10");
             }
-            let free = max - cur;
+            // (a broken pre-state with current_size > max_size — reported where it arose — must not take the reference down)
+            let free = max.saturating_sub(cur);
             if s > free {
                 return same(Some(Ret::TryEvict(k, v, s, free)), "C10");
             }
